@@ -64,4 +64,38 @@ PROPS = {
             ],
         },
     },
+    "C15": {
+        "target": "c15",
+        "tiers": {
+            "quick": {"count": 4000000, "budget_s": 40, "workers": 16, "recheck": 100},
+            "thorough": {"count": 200000000, "budget_s": 1200, "workers": 16, "recheck": 200},
+        },
+        "describe": {
+            "rule": ("one run = one seeded history: policy Counted(limit 1..5 entries) or MaxSize(limit 8..64 bytes), 1..4 generations, "
+                     "file-name definition variants (fixed width numbers, extension, path_sep, environment variable part, directory "
+                     "pre-existing or created by the policy), up to 24 (quick) / 40 (thorough) operations write(len 1..24) / clean restart / "
+                     "clock step, each optionally carrying one fault (process crash at the n-th file-system call incl. a torn write, short "
+                     "write, EINTR, ENOSPC/EIO on write, failing rename/mkdir); 30% of runs fault-free, 30% crash-only. After every "
+                     "operation the simulated disk is compared with the reference model; after the last operation a fresh process must "
+                     "re-open and roll twice. Non-trivial: at least one roll-over or (re)start/crash recovery happened. Distinct: distinct "
+                     "hashes over every simulated file-system call and its result plus the operation log."),
+            "sim_time_unit": "simulated seconds (clock operations of the plans; the clock is read by the file-name builder only)",
+            "state_measure": "distinct (policy, limit, generations) configurations",
+            "distinct_measure": "distinct file-system call sequences (hash over every intercepted call, its arguments and result)",
+            "components": {
+                "real": ["celma::log::files::Counted, MaxSize, PolicyBase (real std::ofstream / std::ifstream of libstdc++)",
+                         "celma::log::filename::Creator, Builder, Definition", "celma::common::FileOperations, FileFuncsOs",
+                         "celma::log::detail::LogMsg"],
+                "stub": [STUB_FS, "wall clock (time/gettimeofday/clock_gettime(CLOCK_REALTIME)), getenv overlay, getpid",
+                         "log message formatting: the text is handed to PolicyBase::writeMessage() directly"],
+            },
+            "assumptions": [
+                "process crash model, not power loss: a byte is durable once write()/writev() returned it, rename/mkdir/unlink when they return; the library never calls fsync",
+                "a crash freezes the disk at the chosen call (optionally after a prefix of that write landed); the dead process' objects are destroyed without reaching the disk; recovery is a new policy object over the surviving files",
+                "after an injected I/O error (ENOSPC/EIO/rename/mkdir failure) only the weak form is demanded until the next clean restart: every line is a written message, no duplicates, order preserved",
+                "both readings of 'would exceed' at the exact boundary are accepted; a new generation may be started before or after the message that fills the file",
+                "sampling, not enumeration",
+            ],
+        },
+    },
 }
